@@ -1,0 +1,130 @@
+//! Read-only hooks for the verification harness. Compiled only with `--cfg fancy_regex_verif`.
+
+use alloc::string::String;
+use alloc::vec::Vec;
+
+use crate::analyze::{analyze, Info};
+use crate::parse::{ExprTree, Parser};
+use crate::{wrap_tree, Captures, Expr, Match, Regex, Result};
+
+pub use crate::vm::verif::{max_stack, stats, VerifState};
+
+/// Facts the analyzer computed for one node, in pre-order.
+#[derive(Debug, Clone, PartialEq, Eq)]
+pub struct NodeFacts {
+    /// Depth of the node in the tree (root = 0)
+    pub depth: usize,
+    /// Short name of the expression kind
+    pub kind: &'static str,
+    /// First group number inside the node
+    pub start_group: usize,
+    /// One past the last group number inside the node
+    pub end_group: usize,
+    /// Minimum number of characters matched
+    pub min_size: usize,
+    /// Whether the node always matches the same number of characters
+    pub const_size: bool,
+    /// Whether the node needs the backtracking VM
+    pub hard: bool,
+}
+
+fn kind(e: &Expr) -> &'static str {
+    match e {
+        Expr::Empty => "emp",
+        Expr::Any { .. } => "any",
+        Expr::Assertion(_) => "as",
+        Expr::Literal { .. } => "lit",
+        Expr::Concat(_) => "cat",
+        Expr::Alt(_) => "alt",
+        Expr::Group(_) => "grp",
+        Expr::LookAround(_, _) => "look",
+        Expr::Repeat { .. } => "rep",
+        Expr::Delegate { .. } => "del",
+        Expr::Backref(_) => "bref",
+        Expr::AtomicGroup(_) => "atom",
+        Expr::KeepOut => "keep",
+        Expr::ContinueFromPreviousMatchEnd => "cont",
+        Expr::BackrefExistsCondition(_) => "bex",
+        Expr::Conditional { .. } => "cond",
+        Expr::SubroutineCall(_) => "sub",
+    }
+}
+
+fn walk(info: &Info<'_>, depth: usize, out: &mut Vec<NodeFacts>) {
+    out.push(NodeFacts {
+        depth,
+        kind: kind(info.expr),
+        start_group: info.start_group,
+        end_group: info.end_group,
+        min_size: info.min_size,
+        const_size: info.const_size,
+        hard: info.hard,
+    });
+    for c in &info.children {
+        walk(c, depth + 1, out);
+    }
+}
+
+/// Parse like `Regex::new` / `RegexBuilder::case_insensitive` does.
+pub fn parse_tree(pattern: &str, casei: bool) -> Result<ExprTree> {
+    Parser::parse_with_case_insensitive(pattern, casei)
+}
+
+/// Analysis facts for every node of the wrapped tree of an already parsed pattern.
+pub fn analysis_of(tree: ExprTree) -> Result<Vec<NodeFacts>> {
+    let tree = wrap_tree(tree);
+    let info = analyze(&tree)?;
+    let mut out = Vec::new();
+    walk(&info, 0, &mut out);
+    Ok(out)
+}
+
+/// Analysis facts for every node of the wrapped tree of `pattern`.
+pub fn analysis(pattern: &str, casei: bool) -> Result<Vec<NodeFacts>> {
+    analysis_of(parse_tree(pattern, casei)?)
+}
+
+/// `Regex::find_from_pos` with the skipped-empty-match flag the iterators pass.
+pub fn find_with_flags<'t>(
+    re: &Regex,
+    text: &'t str,
+    pos: usize,
+    skipped_empty: bool,
+) -> Result<Option<Match<'t>>> {
+    let flags = if skipped_empty {
+        crate::vm::OPTION_SKIPPED_EMPTY_MATCH
+    } else {
+        0
+    };
+    re.find_from_pos_with_option_flags(text, pos, flags)
+}
+
+/// `Regex::captures_from_pos` with the skipped-empty-match flag the iterators pass.
+pub fn captures_with_flags<'t>(
+    re: &Regex,
+    text: &'t str,
+    pos: usize,
+    skipped_empty: bool,
+) -> Result<Option<Captures<'t>>> {
+    let flags = if skipped_empty {
+        crate::vm::OPTION_SKIPPED_EMPTY_MATCH
+    } else {
+        0
+    };
+    re.captures_from_pos_with_option_flags(text, pos, flags)
+}
+
+/// Whether the pattern was handed to the automata engine as a whole.
+pub fn is_wrap(re: &Regex) -> bool {
+    matches!(re.inner, crate::RegexImpl::Wrap { .. })
+}
+
+/// The compiled program listing (one instruction per line), if the pattern uses the VM.
+pub fn listing(re: &Regex) -> Option<Vec<String>> {
+    match &re.inner {
+        crate::RegexImpl::Wrap { .. } => None,
+        crate::RegexImpl::Fancy { prog, .. } => {
+            Some(prog.body.iter().map(|i| alloc::format!("{:?}", i)).collect())
+        }
+    }
+}
